@@ -13,6 +13,9 @@ HISTORY = {
     "C08-2": "first run: missed; reductions now also run with where= masks (C08 operator table, catalogue entry sum_where); patch rebased onto the later repository fix of the reduce default axis",
     "C12-1": "first run: missed; cast oracle now multiplies / squares three-term operands in every dtype pair so that several products land on one exponent",
     "C12-2": "first run: missed; cast oracle now calls aspolynomial(poly, names=<own names>, dtype=T)",
+    "C20-1": "first run: missed by C20, C12 and C01; C20's products now put the large exponent into a later indeterminate while the lexicographically last product row stays small (2 and 3 indeterminates)",
+    "C15-2": "first run: C13 ended inconclusive (reading the unpickled object raised inside the harness) and C15 skipped the case because it failed under defaults too; an exception while reading a returned object is now a violation ('malformed'/'unreadable'), C15 gained whole programs built inside the option block and a pickle entry with retained zero terms",
+    "C17-2": "first run: missed by C17; the direct pass now drives polynomials with bool coefficients (and astype'd copies in five dtypes) through the logical functions",
     "C06-2": "first run: caught by C06, missed by C15; C15's derivative entry now differentiates with respect to several variables",
 }
 REJECTED = [
